@@ -1493,6 +1493,91 @@ def apply_along_axis(f, axis, a, *args):
     raise ShimMissing("apply_along_axis ndim %d" % a.ndim)
 
 
+def searchsorted(a, v, side="left"):
+    """fork-based: Python comparisons on symbolic elements branch, the result is a concrete index"""
+    a = asarray(a).d
+
+    def one(x):
+        k = 0
+        for e_ in a:
+            if (e_ < x) if side == "left" else (e_ <= x):
+                k += 1
+            else:
+                break
+        return k
+
+    if isinstance(v, (list, tuple, ndarray, _np.ndarray)):
+        v = asarray(v)
+        return ndarray._new([one(x) for x in v.d], v.shape, int)
+    return one(v)
+
+
+def digitize(x, bins, right=False):
+    return searchsorted(bins, x, side="left" if right else "right")
+
+
+def argsort(a, axis=-1, kind=None):
+    d = asarray(a).d
+    idx = list(range(len(d)))
+    for i in range(1, len(idx)):  # insertion sort with forking comparisons (stable)
+        j = i
+        while j > 0 and d[idx[j - 1]] > d[idx[j]]:
+            idx[j - 1], idx[j] = idx[j], idx[j - 1]
+            j -= 1
+    return ndarray._new(idx, (len(idx),), int)
+
+
+def bincount(x, minlength=0):
+    d = [builtins.int(v) for v in asarray(x).d]
+    n = builtins.max([minlength] + [v + 1 for v in d])
+    out = [0] * n
+    for v in d:
+        out[v] += 1
+    return ndarray._new(out, (n,), int)
+
+
+def histogram(a, bins=10, range=None, **kw):
+    a = asarray(a).flatten()
+    if isinstance(bins, (int, _np.integer)):
+        lo, hi = range if range is not None else (min(a), max(a))
+        edges = linspace(lo, hi, bins + 1)
+    else:
+        edges = asarray(bins)
+    ed = edges.d
+    counts = [0] * (len(ed) - 1)
+    for x in a.d:
+        for i in builtins.range(len(ed) - 1):
+            last = i == len(ed) - 2
+            if x >= ed[i] and ((x <= ed[i + 1]) if last else (x < ed[i + 1])):
+                counts[i] += 1
+                break
+    return ndarray._new(counts, (len(counts),), int), edges
+
+
+def unique(a):
+    d = asarray(a).d
+    if builtins.any(_is_sym(x) for x in d):
+        raise symx.Inconclusive("symbolic-unique", "np.unique on symbolic values")
+    return array(sorted(set(d)))
+
+
+def flatnonzero(a):
+    return array([i for i, x in enumerate(asarray(a).d) if x])
+
+
+def take(a, idx, axis=None):
+    return asarray(a)[asarray(idx)]
+
+
+def cumprod(a):
+    out = []
+    r = 1
+    for v in asarray(a).d:
+        r = r * v
+        out.append(r)
+    return array(out)
+
+
 def fill_diagonal(a, v):
     for i in range(builtins.min(a.shape)):
         a[i, i] = v
@@ -1500,10 +1585,6 @@ def fill_diagonal(a, v):
 
 def frombuffer(*a, **k):
     raise ShimMissing("np.frombuffer")
-
-
-def histogram(*a, **k):
-    raise ShimMissing("np.histogram")
 
 
 def cov(*a, **k):
